@@ -200,3 +200,9 @@ def wire_check(prop, part, level, rule, assumptions=(), gens=("v2", "root"), dea
 
 C02 = wire_check("C02", "C02", "model_checking",
     rule="bounded-exhaustive enumeration of (resource, method, argument position, value, configuration): every method of every resource of the R-universe (collections keyed by primitives / typerefs / enum / complex key, simple, action set, sub-resources to 3 levels; 11 rest methods, return-entity variants, 2 finders, 5 actions) is called through the generated client over the in-memory wire against the real server with generated mock resources; exactly the corresponding resource method must be invoked with equal keys / parameters / paging / body, and the client must return what the resource returned; states = (config, resource, method), transitions = client calls")
+
+
+C08 = wire_check("C08", "C08", "model_checking",
+    rule="every method of every resource x every implementation outcome (value, overridden status, typed nil result, ErrorResponse with every subset of its scalar fields set, plain error, wrapped ErrorResponse, panic(string), panic(error)) executed through generated client -> wire -> real server -> mock; checked: client error carries an equal ErrorResponse, HTTP status = its status or 500, error header iff error, failures have a status >= 400 and carry the message, no panic escapes ServeHTTP, success statuses are the protocol defaults unless overridden, the resource's error object is bit-for-bit unchanged; plus a shared error object over 3 sequential requests and every assignment of {result, error, status} to 3 batch keys; states = (resource, method), transitions = calls",
+    assumptions=["a default message supplied for an ErrorResponse without message is accepted (the client must still see every field the resource set)",
+                 "concurrent sharing of error objects is explored by C17"])
